@@ -62,7 +62,7 @@ static MPT_INTERFACE(metatype) *iterBoundaryClone(const MPT_INTERFACE(metatype) 
 	
 	if ((ptr = mpt_iterator_boundary(d->elem, d->left, d->inter, d->right))) {
 		uint32_t pos = d->pos;
-		d = (void *) (ptr + 2);
+		d = MPT_baseaddr(iteratorBoundary, ptr, _mt);
 		d->pos = pos;
 	}
 	return ptr;
